@@ -317,7 +317,10 @@ class FieldValueComponentKeyValueBase(FieldValueComponentBase):
         cls._parse_value(parser)
         parsed_value = parser['value']
         if cls.get_canonical_name():
-            parsed_value = cls(parsed_value)
+            try:
+                parsed_value = cls(parsed_value)
+            except TypeError as e:
+                six.raise_from(InvalidValue(parsed_value, cls, 'value'), e)
 
         return parsed_value, parser.parsed_length
 
@@ -677,13 +680,19 @@ class FieldsJson(FieldValueBase):
         except ValueError as e:  # json.decoder.JSONDecodeError is derived from ValueError
             six.raise_from(InvalidValue(_to_printable(parsable), cls, 'value'), e)
 
+        if not isinstance(raw_values, dict):
+            raise InvalidValue(_to_printable(parsable), cls, 'value')
+
         attr_fields_dict = attr.fields_dict(cls)
 
-        return cls(**{
-            attribute_name: raw_values[validator_class.get_canonical_name()]
-            for attribute_name, validator_class in cls._get_attr_to_validator_type_dict(attr_fields_dict).items()
-            if validator_class.get_canonical_name() in raw_values
-        }), len(parsable)
+        try:
+            return cls(**{
+                attribute_name: raw_values[validator_class.get_canonical_name()]
+                for attribute_name, validator_class in cls._get_attr_to_validator_type_dict(attr_fields_dict).items()
+                if validator_class.get_canonical_name() in raw_values
+            }), len(parsable)
+        except TypeError as e:
+            six.raise_from(InvalidValue(_to_printable(parsable), cls, 'value'), e)
 
     def compose(self):
         attr_fields_dict = attr.fields_dict(type(self))
